@@ -318,7 +318,19 @@ def streams_for(pid, tier, rng):
         S.append(Stream("timestamps: last day / add months", lines, exhaustive=thorough))
         S.append(ops_stream("month arithmetic x pools", rng, pools,
                             ["D.add_ym", "D.sub_ym", "TS.add_ym", "TS.sub_ym", "OD.add_ym", "OD.sub_ym", "D.last_day",
-                             "TS.last_day", "OD.last_day"], cap * 2))
+                             "TS.last_day", "OD.last_day"], cap * 2, modes=("off", "on")))
+        # offsets spread over the WHOLE interval range (±2.136e9 months): the year leaves 1..9999 by millions of years,
+        # where an intermediate i32 product would wrap (seed C09-C)
+        lines = []
+        n = 60000 if thorough else 12000
+        for _ in range(n):
+            k = rng.range(-YM_MAX, YM_MAX)
+            if rng.below(2):
+                lines.append("D.add_ym %d %d" % (rng.range(DATE_MIN, DATE_MAX), k))
+            else:
+                lines.append("%s %d %d" % (rng.choice(["TS.add_ym", "TS.sub_ym", "D.sub_ym"]),
+                                          rng.range(DATE_MIN, DATE_MAX), k))
+        S.append(Stream("random dates x offsets over the whole interval range", lines, ("off", "on"), (oracle_no_panic, oracle_range)))
     elif pid in ("C10", "C11"):
         kind = "trunc" if pid == "C10" else "round"
         lines = [rng_dates("D.%s %s %%" % (kind, u)) for u in UNITS]
